@@ -267,13 +267,16 @@ def run(ctx):
     lib.load("nojit")
     # (1)
     vt = []
-    for name in (("k2a", "k3a") if not ctx.thorough else ("k2a", "k2b", "k3a", "k3b", "k2mat")):
+    if ctx.thorough:
+        vplan = [("k2a", 1, 2), ("k2b", 4, 2), ("k2mat", 4, 2), ("k3a", 27, 1), ("k3a", 243, 2), ("k3b", 243, 1)]
+    else:
+        vplan = [("k2a", 5, 2), ("k3a", 243, 1)]
+    for (name, step, dev) in vplan:
         d = ml.get_driver(name, ctx.seed)
-        inits = ml.all_labellings(d.Tp, d.K)
-        step = 1 if ctx.thorough else (5 if d.K == 2 else 243)
-        inits = inits[::step]
-        for lo in range(0, len(inits), 1 if d.K > 2 else 2):
-            vt.append((name, ctx.seed, inits[lo:lo + (1 if d.K > 2 else 2)], 2 if (ctx.thorough or d.K == 2) else 1))
+        inits = ml.all_labellings(d.Tp, d.K)[::step]
+        per = 1 if d.K > 2 else 2
+        for lo in range(0, len(inits), per):
+            vt.append((name, ctx.seed, inits[lo:lo + per], dev))
     if os.environ.get("VERIF_C14_PARTS", "virtual,real").find("virtual") < 0:
         vt = []         # diagnostic switch: run the real-pool part alone
     for r in ctx.pmap(work_virtual, vt):
@@ -346,8 +349,8 @@ def run(ctx):
     ctx.take(acc.result())
     ctx.cov["exhaustive"] = True
     ctx.cov["rule"] = (
-        "(1) virtual pool, scripted initial labellings (every 5th of k2a, every 243rd of k3a, iteration limit 4; thorough: all, more "
-        "drivers): every schedule script = per round (completion permutation of the K tasks, number of tasks "
+        "(1) virtual pool, scripted initial labellings (quick: every 5th of k2a, every 243rd of k3a; thorough: all of k2a, every 4th of k2b/k2mat, "
+        "every 27th of k3a, every 243rd of k3b; iteration limit 4): every schedule script = per round (completion permutation of the K tasks, number of tasks "
         "already finished when the parent first inspects a result; the rest finish only as the parent blocks or polls), "
         "exhaustive when (K!(K+1))^rounds <= 1300, else every script with <= 2 (K=3 quick: 1) non-default rounds; (2) real multiprocessing.Pool, default "
         "GMM path with seeded global RNGs: num_processors 1..8 x CUPCAKE_ENABLE_MULTIPROCESSING off/on x every "
